@@ -708,6 +708,11 @@ def make_symbolic(eng, st, name, spec):
         return SV("range", x=(sv_int(a), sv_int(b), sv_int(s)))
     if spec == "seq":
         return SV("seq", fresh(name, z3.SeqSort(Val)))
+    if spec == "mapseq":
+        # a Mapping given by its iteration sequence (ghost): keys[i] -> vals[i] in the order .items() yields them
+        ks, vs = fresh(name + "_keys", z3.SeqSort(Val)), fresh(name + "_vals", z3.SeqSort(Val))
+        st.assume(z3.Length(ks) == z3.Length(vs))
+        return SV("mapseq", x=(SV("seq", ks), SV("seq", vs)))
     if spec == "list":
         n = fresh(name + "_len", Int)
         st.assume(n >= 0)
